@@ -72,14 +72,35 @@ def constraint_name(e):
 DISCHARGERS = {TC + "check_constraints": [2], TC + "unify": [2, 3]}
 
 
+_CUR_FLOW = [None]
+
+
+def _fresh_node(e):
+    """is this TyID expression a node created in this function (push_type / resolve_type / copy), hence in a class of
+    its own when it meets another node for the first time"""
+    fl = _CUR_FLOW[0]
+    if fl is None:
+        return False
+    d = describe(fl, e)
+    return d.startswith(("fresh:", "declared:", "copy(", "fnsig"))
+
+
 def _is_discharge(n, hid):
     c = callee(n)
     if c not in DISCHARGERS:
         return False
     args = call_args(n)  # receiver first for method calls
-    for i in DISCHARGERS[c]:
+    idxs = DISCHARGERS[c]
+    for i in idxs:
         a = peel(args[i + 1]) if n.get("k") == "MethodCall" else peel(args[i])
         if isinstance(a, dict) and a.get("k") == "Path" and a.get("res") == "Local" and a["hid"] == hid:
+            if c == TC + "unify":
+                # sub_unify returns early - without looking at constraints - when both nodes are already in one class
+                # (`x -= x`, `y := x; x *= y`): unify only enforces the constraints of `hid` when the two nodes are
+                # certainly distinct, i.e. when one of them was created here
+                others = [peel(args[j + 1]) if n.get("k") == "MethodCall" else peel(args[j]) for j in idxs if j != i]
+                if not (_fresh_node(a) or any(_fresh_node(o) for o in others)):
+                    continue
             return True
     return False
 
@@ -126,6 +147,7 @@ def discharge_sites(F, rep, rule, fn, exempt=None, only=None):
     fname = last(fn["_path"])
     count = 0
     seen_keys = {}
+    _CUR_FLOW[0] = Flow(fn, body)
     for n, parents in walk(body):
         if n.get("k") != "MethodCall" or callee(n) != TC + "add_constraint":
             continue
@@ -755,3 +777,145 @@ def field_set_agreement(F, rep, rule, fn, variant="Blob", field="2"):
                        "no key is tested for membership in the collection it was taken from%s" % (
                            "" if not taut else ": " + ", ".join("%s @ %s" % t for t in taut)), line_of(arm))
     return n_rows
+
+
+# --------------------------------------------------------------------------- RET-FOLD
+
+RET_SOURCES = (TC + "expression", TC + "expression_block")
+
+
+def _reads(n, hid):
+    return any(x.get("res") == "Local" and x.get("hid") == hid for x in nodes(n, "Path"))
+
+
+def read_on_all_paths(n, hid):
+    """is local `hid` read on every path through n that does not leave with an error"""
+    if n is None or not isinstance(n, dict):
+        return False
+    k = n.get("k")
+    if k == "If":
+        if _reads(n["c"], hid):
+            return True
+        return n.get("e") is not None and read_on_all_paths(n["t"], hid) and read_on_all_paths(n["e"], hid)
+    if k == "Match":
+        if _reads(n["scrut"], hid):
+            return True
+        arms = [a for a in n["arms"] if not is_err_value(a["body"])]
+        return bool(arms) and all(read_on_all_paths(a["body"], hid) for a in arms)
+    if k in ("While", "Loop"):
+        return False
+    if k == "ForLoop":
+        return _reads(n["iter"], hid)
+    if k == "Binary" and n.get("op") in ("And", "Or"):
+        return read_on_all_paths(n["l"], hid)
+    if k == "Block":
+        for s in n["stmts"]:
+            e = s.get("init") if s.get("k") == "Let" else s.get("e")
+            if e is not None and read_on_all_paths(e, hid):
+                return True
+        return read_on_all_paths(n.get("e"), hid)
+    if k == "Closure":
+        return _reads(n["body"], hid)
+    if k == "Path":
+        return n.get("res") == "Local" and n.get("hid") == hid
+    for c in children(n):
+        if isinstance(c, dict) and ("k" in c) and read_on_all_paths(c, hid):
+            return True
+    return False
+
+
+def ret_fold(F, rep, rule, fn):
+    """every child's (return type, value) pair comes back from expression()/expression_block(); the return-type half
+    says what `ret` statements inside that child return.  It has to reach the parent's own result on every success path,
+    otherwise a `ret` of the wrong type inside that child is never compared with the function's declared return type."""
+    body = fn_body(fn)
+    fl = Flow(fn, body)
+    fname = last(fn["_path"])
+    n = 0
+    blocks = list(nodes(body, "Block"))
+
+    def rest_after(let_node):
+        for b in blocks:
+            for i, s in enumerate(b["stmts"]):
+                if s is let_node:
+                    return [(x.get("init") if x.get("k") == "Let" else x.get("e")) for x in b["stmts"][i + 1:]] + [b.get("e")]
+        return None
+
+    seen = {}
+    for b in blocks:
+        for st in b["stmts"]:
+            if st.get("k") != "Let" or st.get("init") is None:
+                continue
+            init = peel(st["init"])
+            if init.get("k") == "Try":
+                init = peel(init["e"])
+            while init.get("k") == "MethodCall" and init["m"] in ("help", "help_no_span"):
+                init = peel(init["recv"])
+            carriers = []
+            if init.get("k") == "MethodCall" and callee(init) in RET_SOURCES:
+                p = pat_strip(st["pat"])
+                if p.get("k") == "Tuple" and p["pats"]:
+                    first = pat_strip(p["pats"][0])
+                    if first.get("k") == "Wild":
+                        n += 1
+                        key = "%s|%s|discarded" % (fname, root_field(fl, init["args"][0 if callee(init) == TC + "expression" else 1]))
+                        rep.ob(rule, key, False, "the return-type half of a child's result is discarded with `_`", line_of(st))
+                        continue
+                    carriers = [(bb, "the return type of `%s`" % root_field(fl, init["args"][0 if callee(init) == TC + "expression" else 1]))
+                                for bb in pat_bindings(first)]
+            else:
+                inner = [c for cl in nodes(st["init"], "Closure") for c in nodes(cl["body"], "MethodCall") if callee(c) in RET_SOURCES]
+                if inner:
+                    carriers = [(bb, "the collected (return type, value) pairs of `%s`" % root_field(fl, inner[0]["args"][0 if callee(inner[0]) == TC + "expression" else 1]))
+                                for bb in pat_bindings(st["pat"]) if "Option<sylt_common::TyID>" in (bb.get("ty") or "")]
+            for bb, what in carriers:
+                rest = rest_after(st)
+                if rest is None:
+                    continue
+                n += 1
+                ctxname = _arm_context(_parents_of(body, st))
+                key = "%s|%s|%s" % (fname, ctxname or "-", bb["name"])
+                seen[key] = seen.get(key, 0) + 1
+                if seen[key] > 1:
+                    key += "#%d" % seen[key]
+                ok = any(x is not None and read_on_all_paths(x, bb["hid"]) for x in rest)
+                rep.ob(rule, key, ok,
+                       ("%s (`%s`) is used on every success path" % (what, bb["name"])) if ok else
+                       ("%s (`%s`) is dropped on some success path: a `ret` inside that child is then never compared with "
+                        "the enclosing function's return type" % (what, bb["name"])), line_of(st))
+    # RET-ORIGIN: the return-type half that an arm hands back is made of its children's halves (or None); a fresh type
+    # invented there (`Some(push_type(Unknown))`) makes a body without any `ret` look as if it returned something
+    for c in nodes(body, "Call"):
+        if (callee(c) or "").endswith("typechecker::with_ret") and c.get("args"):
+            a = peel(c["args"][0])
+            src = fl.trace(a) if a.get("k") == "Path" and a.get("res") == "Local" else a
+            src = peel(src)
+            invented = src.get("k") == "Call" and (callee(src) or "").endswith("Option::Some") and any(
+                callee(x) == TC + "push_type" for x in nodes(src, "MethodCall"))
+            if a.get("k") == "Path" or invented:
+                n += 1
+                ctxname = _arm_context(_parents_of_node(body, c))
+                key = "%s|%s|origin" % (fname, ctxname or "-")
+                seen[key] = seen.get(key, 0) + 1
+                if seen[key] > 1:
+                    key += "#%d" % seen[key]
+                rep.ob(rule.replace("FOLD", "ORIGIN"), key, not invented,
+                       "the return type handed back is built from the children's return types" if not invented else
+                       "the return type handed back starts as a freshly made unknown type instead of None: an expression of this "
+                       "kind always claims to contain a `ret`, so `f :: fn -> int do x :: (1, 2) end` (no value, no ret) is accepted",
+                       line_of(c))
+    return n
+
+
+def _parents_of_node(root, target):
+    for n, parents in walk(root):
+        if n is target:
+            return list(parents)
+    return []
+
+
+def _parents_of(root, target):
+    for n, parents in walk(root):
+        if n.get("k") == "Block" and any(s is target for s in n.get("stmts", [])):
+            return list(parents) + [n]
+    return []
